@@ -82,7 +82,7 @@ static int ts_abs_pop(struct aws_priority_queue *queue, void *item) {
     g_tk[old].priority_queue_node.current_index = SIZE_MAX;
     g_q_size--;
     size_t n = ts_new_front(g_q_size > 0, old, g_tl_len > 0 ? g_tl_front_i : TS_NONE, g_run_len > 0 ? g_run_front_i : TS_NONE);
-    if (g_q_size > 0) __CPROVER_assume(g_tk[n].timestamp >= g_tk[old].timestamp); /* heap order */
+    if (g_q_size > 0) __CPROVER_assume(g_tk[n].timestamp >= g_tk[old].timestamp && g_tk[n].node.next == NULL); /* heap order; heap tasks are not linked */
     g_q_top_i = n;
     return AWS_OP_SUCCESS;
 }
